@@ -39,7 +39,8 @@ META = {
     'rule': ("cases = topologies with repeated molecule names (2-5 [ molecules ] entries) x build files of 1-3 [ molecule ] blocks "
              "(overlapping / adjacent / empty index ranges) x 1-3 directives each (sphere / cylinder / rectangle / rw_restriction; "
              "overlapping and adjacent resid ranges); residue specs with every subset of fields; -split strings over multi-atom "
-             "residues; -lig runs; non-trivial = at least one residue tagged and one left untagged; distinct by input text"),
+             "residues; -lig runs; non-trivial = at least one residue tagged and one left untagged; distinct by input text"
+             "; directed / added families (waves 10-12): to-the-end directives on split molecules; molecules with restarting residue numbers"),
 }
 
 PRELUDE = """From Coq Require Import ZArith String Ascii List Bool.
